@@ -1,10 +1,15 @@
-(* C03, unbounded part: the control-flow passes rebuild every nest of  if ... then ... end if  constructs
-   (any depth, any number of statements per body) from the flat statement list the stack machine leaves.
+(* C03, unbounded part: the control-flow passes rebuild every nest of  if ... then ... [else ...] end if
+   constructs (any depth, any number of statements per body) from the flat statement list the stack machine leaves.
 
-   The flat list of a body is: plain statements (assignments, calls) and, for an if, the conditional-jump
-   statement  Stmt p (Jz p cond addr)  followed by the flat list of its body, whose positions lie in (p, addr);
-   what follows the if has positions >= addr.  This file works on that description ("items" with positions);
-   Proofs/LingoNestExec.v shows that running compiled code produces exactly such a list. *)
+   The flat list of a body is: plain statements (assignments, calls); for an if, the conditional-jump statement
+   Stmt p (Jz p cond addr)  followed by the flat list of its body, whose positions lie in (p, addr); for an
+   if-else, the conditional jump to the start of the else part, the then part, an unconditional jump
+   Stmt jp (Jump jp je)  over the else part, the else part.  What follows a construct has positions at or
+   after its end.  This file works on that description ("items" with positions); Proofs/LingoNestExec.v shows
+   that running compiled code produces exactly such a list.
+
+   Everything is stated for a loop-end parameter [e] (None outside a loop) under the hypothesis that no jump of
+   the list leaves the loop (targets <= e): then the exit-repeat branches of the passes are never taken. *)
 From Coq Require Import ZArith List Bool String Lia.
 From DRX Require Import Py.PyBytes Py.PyString Model.LingoAst Model.LingoGen Model.LingoOps Model.LingoLoop Proofs.LingoStmtFacts.
 Import ListNotations.
@@ -13,56 +18,94 @@ Open Scope Z_scope.
 
 Inductive item :=
 | IPlain (st : node)
-| IIf (p : Z) (cond : node) (addr : Z) (body : list item).
+| IIf (p : Z) (cond : node) (addr : Z) (body : list item)
+| IIfE (p : Z) (cond : node) (eb : Z) (body : list item) (jp je : Z) (ebody : list item).
 
 Fixpoint flat_i (i : item) : list node :=
+  let fl := fix fl (l : list item) : list node := match l with [] => [] | x :: r => flat_i x ++ fl r end in
   match i with
   | IPlain st => [st]
-  | IIf p c a body => Stmt p (Jz p c a) :: (fix fl (l : list item) : list node := match l with [] => [] | x :: r => flat_i x ++ fl r end) body
+  | IIf p c a body => Stmt p (Jz p c a) :: fl body
+  | IIfE p c eb body jp je ebody => Stmt p (Jz p c eb) :: fl body ++ Stmt jp (Jump jp je) :: fl ebody
   end.
 Fixpoint flats (l : list item) : list node := match l with [] => [] | x :: r => flat_i x ++ flats r end.
 
 Fixpoint tree_i (i : item) : node :=
+  let tr := fix tr (l : list item) : list node := match l with [] => [] | x :: r => tree_i x :: tr r end in
   match i with
   | IPlain st => st
-  | IIf p c a body => Stmt p (IfThen p c ((fix tr (l : list item) : list node := match l with [] => [] | x :: r => tree_i x :: tr r end) body) [])
+  | IIf p c a body => Stmt p (IfThen p c (tr body) [])
+  | IIfE p c eb body jp je ebody => Stmt p (IfThen p c (tr body) (tr ebody))
   end.
 Fixpoint trees (l : list item) : list node := match l with [] => [] | x :: r => tree_i x :: trees r end.
 
 Fixpoint depth_i (i : item) : nat :=
+  let d := fix d (l : list item) : nat := match l with [] => O | x :: r => Nat.max (depth_i x) (d r) end in
   match i with
   | IPlain _ => O
-  | IIf _ _ _ body => S ((fix d (l : list item) : nat := match l with [] => O | x :: r => Nat.max (depth_i x) (d r) end) body)
+  | IIf _ _ _ body => S (d body)
+  | IIfE _ _ _ body _ _ ebody => S (Nat.max (d body) (d ebody))
   end.
 Fixpoint depths (l : list item) : nat := match l with [] => O | x :: r => Nat.max (depth_i x) (depths r) end.
 
 Lemma flat_if p c a body : flat_i (IIf p c a body) = Stmt p (Jz p c a) :: flats body.
 Proof. reflexivity. Qed.
+Lemma flat_ife p c eb body jp je ebody :
+  flat_i (IIfE p c eb body jp je ebody) = Stmt p (Jz p c eb) :: flats body ++ Stmt jp (Jump jp je) :: flats ebody.
+Proof. reflexivity. Qed.
 Lemma tree_if p c a body : tree_i (IIf p c a body) = Stmt p (IfThen p c (trees body) []).
+Proof. reflexivity. Qed.
+Lemma tree_ife p c eb body jp je ebody : tree_i (IIfE p c eb body jp je ebody) = Stmt p (IfThen p c (trees body) (trees ebody)).
 Proof. reflexivity. Qed.
 Lemma depth_if p c a body : depth_i (IIf p c a body) = S (depths body).
 Proof. reflexivity. Qed.
+Lemma depth_ife p c eb body jp je ebody : depth_i (IIfE p c eb body jp je ebody) = S (Nat.max (depths body) (depths ebody)).
+Proof. reflexivity. Qed.
+Lemma depths_cons x r : depths (x :: r) = Nat.max (depth_i x) (depths r). Proof. reflexivity. Qed.
 Lemma flats_app l1 l2 : flats (l1 ++ l2) = flats l1 ++ flats l2.
 Proof. induction l1 as [|x r IH]; [reflexivity|]. cbn [app flats]. rewrite IH, app_assoc. reflexivity. Qed.
 Lemma trees_app l1 l2 : trees (l1 ++ l2) = trees l1 ++ trees l2.
 Proof. induction l1 as [|x r IH]; [reflexivity|]. cbn [app trees]. rewrite IH. reflexivity. Qed.
 
-(* well-positioned item lists: plain statements are assignments or calls, positions increase, an if's body lies
-   strictly between its jump and its target, bodies are not empty *)
+(* well-positioned item lists: plain statements are assignments or calls, positions increase, a body lies strictly
+   between its jump and its end, bodies are not empty *)
 Inductive wp : Z -> Z -> list item -> Prop :=
 | wp_nil lo hi : lo <= hi -> wp lo hi []
 | wp_plain lo hi st r : plain_stmt st = true -> lo <= pos_of st -> wp (pos_of st + 1) hi r -> wp lo hi (IPlain st :: r)
-| wp_if lo hi p c a body r : lo <= p -> body <> [] -> wp (p + 1) a body -> wp a hi r -> wp lo hi (IIf p c a body :: r).
+| wp_if lo hi p c a body r : lo <= p -> body <> [] -> wp (p + 1) a body -> wp a hi r -> wp lo hi (IIf p c a body :: r)
+| wp_ife lo hi p c eb body jp je ebody r :
+    lo <= p -> body <> [] -> ebody <> [] -> wp (p + 1) jp body -> jp < eb -> wp eb je ebody -> wp je hi r ->
+    wp lo hi (IIfE p c eb body jp je ebody :: r).
 
 Lemma wp_le lo hi l : wp lo hi l -> lo <= hi.
 Proof. induction 1; lia. Qed.
 
+Lemma wp_lower lo lo' hi l : wp lo hi l -> lo' <= lo -> wp lo' hi l.
+Proof.
+  intros H Hl. destruct H.
+  - apply wp_nil. lia.
+  - apply wp_plain; [assumption | lia | assumption].
+  - apply wp_if; [lia | assumption | assumption | assumption].
+  - apply wp_ife; try assumption. lia.
+Qed.
+Lemma wp_app lo mid hi l1 l2 : wp lo mid l1 -> wp mid hi l2 -> wp lo hi (l1 ++ l2).
+Proof.
+  induction 1 as [lo mid H | lo mid st r Hp Hlo Hr IH | lo mid p c a body r Hlo Hne Hb _ Hr IHr
+                 | lo mid p c eb body jp je ebody r Hlo Hne Hne' Hb _ Hj He _ Hr IHr]; intros Hl2; cbn [app].
+  - apply (wp_lower mid lo hi l2 Hl2). assumption.
+  - apply wp_plain; [assumption | assumption | apply IH; exact Hl2].
+  - apply wp_if; try assumption. apply IHr. exact Hl2.
+  - apply wp_ife; try assumption. apply IHr. exact Hl2.
+Qed.
+
 (* ---- shapes of the statements involved ---- *)
 Definition st_ok (st : node) : bool :=
   match st with
-  | Stmt _ (Binary _ _ _ _) | Stmt _ (Call _ _ _ _ _ _) | Stmt _ (Jz _ _ _) | Stmt _ (IfThen _ _ _ _) => true
+  | Stmt _ (Binary _ _ _ _) | Stmt _ (Call _ _ _ _ _ _) | Stmt _ (Jz _ _ _) | Stmt _ (IfThen _ _ _ _) | Stmt _ (Jump _ _) => true
   | _ => false
   end.
+(* not an unconditional jump *)
+Definition noj (st : node) : bool := match st with Stmt _ (Jump _ _) => false | _ => true end.
 (* a statement that is not the conditional jump at p *)
 Definition not_jz_at (p : Z) (st : node) : bool :=
   match st with
@@ -71,6 +114,8 @@ Definition not_jz_at (p : Z) (st : node) : bool :=
   end.
 
 Lemma plain_st_ok st : plain_stmt st = true -> st_ok st = true.
+Proof. destruct st; try discriminate. destruct st; try discriminate; reflexivity. Qed.
+Lemma plain_noj st : plain_stmt st = true -> noj st = true.
 Proof. destruct st; try discriminate. destruct st; try discriminate; reflexivity. Qed.
 
 Lemma node_eq_stmts y x : st_ok y = true -> st_ok x = true -> node_eq y x = (pos_of y =? pos_of x).
@@ -89,51 +134,97 @@ Qed.
 Lemma node_eq_jz_refl p c a : node_eq (Jz p c a) (Jz p c a) = true.
 Proof. unfold node_eq. cbn [pos_of]. rewrite Z.eqb_refl. reflexivity. Qed.
 
-(* positions and shapes of flat lists and trees; the jump of an if carries the position of its statement *)
+(* positions and shapes: a jump carries the position of its statement; an unconditional jump stays below hi *)
 Definition jz_pos (st : node) : Prop := match st with Stmt q (Jz q' _ _) => q = q' | _ => True end.
-Definition within (lo hi : Z) (st : node) : Prop := st_ok st = true /\ lo <= pos_of st < hi /\ jz_pos st.
+Definition jump_le (hi : Z) (st : node) : Prop := match st with Stmt _ (Jump _ t) => t <= hi | _ => True end.
+Definition within (lo hi : Z) (st : node) : Prop := st_ok st = true /\ lo <= pos_of st < hi /\ jz_pos st /\ jump_le hi st.
 
 Lemma plain_jz_pos st : plain_stmt st = true -> jz_pos st.
 Proof. destruct st; try discriminate. destruct st; try discriminate; intros _; exact I. Qed.
+Lemma plain_jump_le hi st : plain_stmt st = true -> jump_le hi st.
+Proof. destruct st; try discriminate. destruct st; try discriminate; intros _; exact I. Qed.
 
 Lemma within_weaken lo hi lo' hi' st : within lo hi st -> lo' <= lo -> hi <= hi' -> within lo' hi' st.
-Proof. intros (H1 & H2 & H3) ? ?. repeat split; try assumption; lia. Qed.
+Proof.
+  intros (H1 & H2 & H3 & H4) ? ?. repeat split; try assumption; try lia.
+  destruct st; try exact I. destruct st; try exact I. cbn [jump_le] in *. lia.
+Qed.
+Lemma within_plain lo hi st : plain_stmt st = true -> lo <= pos_of st < hi -> within lo hi st.
+Proof. intros Hp Hpos. repeat split; [apply plain_st_ok; exact Hp | lia | lia | apply plain_jz_pos; exact Hp | apply plain_jump_le; exact Hp]. Qed.
+
+Lemma Forall_within_weaken lo hi lo' hi' l : Forall (within lo hi) l -> lo' <= lo -> hi <= hi' -> Forall (within lo' hi') l.
+Proof. intros H ? ?. eapply Forall_impl; [|exact H]. intros x Hx. eapply within_weaken; eauto. Qed.
 
 Lemma flats_within lo hi l : wp lo hi l -> Forall (within lo hi) (flats l).
 Proof.
-  induction 1 as [lo hi H | lo hi st r Hp Hlo Hr IH | lo hi p c a body r Hlo Hne Hb IHb Hr IHr].
+  induction 1 as [lo hi H | lo hi st r Hp Hlo Hr IH | lo hi p c a body r Hlo Hne Hb IHb Hr IHr
+                 | lo hi p c eb body jp je ebody r Hlo Hne Hne' Hb IHb Hj He IHe Hr IHr].
   - constructor.
-  - cbn [flats flat_i app]. pose proof (wp_le _ _ _ Hr). constructor; [repeat split; [apply plain_st_ok; exact Hp | lia | lia | apply plain_jz_pos; exact Hp]|].
-    eapply Forall_impl; [|exact IH]. intros x Hx. eapply within_weaken; [exact Hx | lia | lia].
+  - cbn [flats flat_i app]. pose proof (wp_le _ _ _ Hr). constructor; [apply within_plain; [exact Hp | lia]|].
+    apply (Forall_within_weaken _ _ _ _ _ IH); lia.
   - cbn [flats]. rewrite flat_if. pose proof (wp_le _ _ _ Hb). pose proof (wp_le _ _ _ Hr).
     cbn [app]. constructor; [repeat split; cbn [pos_of]; lia|]. apply Forall_app. split.
-    + eapply Forall_impl; [|exact IHb]. intros x Hx. eapply within_weaken; [exact Hx | lia | lia].
-    + eapply Forall_impl; [|exact IHr]. intros x Hx. eapply within_weaken; [exact Hx | lia | lia].
+    + apply (Forall_within_weaken _ _ _ _ _ IHb); lia.
+    + apply (Forall_within_weaken _ _ _ _ _ IHr); lia.
+  - cbn [flats]. rewrite flat_ife. pose proof (wp_le _ _ _ Hb). pose proof (wp_le _ _ _ He). pose proof (wp_le _ _ _ Hr).
+    cbn [app]. constructor; [repeat split; cbn [pos_of]; lia|]. rewrite <- app_assoc. apply Forall_app. split.
+    + apply (Forall_within_weaken _ _ _ _ _ IHb); lia.
+    + cbn [app]. constructor; [repeat split; cbn [pos_of jump_le]; lia|]. apply Forall_app. split.
+      * apply (Forall_within_weaken _ _ _ _ _ IHe); lia.
+      * apply (Forall_within_weaken _ _ _ _ _ IHr); lia.
 Qed.
 
 Lemma trees_within lo hi l : wp lo hi l -> Forall (within lo hi) (trees l).
 Proof.
-  induction 1 as [lo hi H | lo hi st r Hp Hlo Hr IH | lo hi p c a body r Hlo Hne Hb IHb Hr IHr].
+  induction 1 as [lo hi H | lo hi st r Hp Hlo Hr IH | lo hi p c a body r Hlo Hne Hb IHb Hr IHr
+                 | lo hi p c eb body jp je ebody r Hlo Hne Hne' Hb IHb Hj He IHe Hr IHr].
   - constructor.
-  - cbn [trees tree_i]. pose proof (wp_le _ _ _ Hr). constructor; [repeat split; [apply plain_st_ok; exact Hp | lia | lia | apply plain_jz_pos; exact Hp]|].
-    eapply Forall_impl; [|exact IH]. intros x Hx. eapply within_weaken; [exact Hx | lia | lia].
+  - cbn [trees tree_i]. pose proof (wp_le _ _ _ Hr). constructor; [apply within_plain; [exact Hp | lia]|].
+    apply (Forall_within_weaken _ _ _ _ _ IH); lia.
   - cbn [trees]. rewrite tree_if. pose proof (wp_le _ _ _ Hb). pose proof (wp_le _ _ _ Hr).
-    constructor; [repeat split; cbn [pos_of]; lia|].
-    eapply Forall_impl; [|exact IHr]. intros x Hx. eapply within_weaken; [exact Hx | lia | lia].
+    constructor; [repeat split; cbn [pos_of]; lia|]. apply (Forall_within_weaken _ _ _ _ _ IHr); lia.
+  - cbn [trees]. rewrite tree_ife. pose proof (wp_le _ _ _ Hb). pose proof (wp_le _ _ _ He). pose proof (wp_le _ _ _ Hr).
+    constructor; [repeat split; cbn [pos_of]; lia|]. apply (Forall_within_weaken _ _ _ _ _ IHr); lia.
 Qed.
 
 Lemma within_not_jz lo hi p st : within lo hi st -> p < lo \/ hi <= p -> not_jz_at p st = true.
 Proof.
-  intros (Hok & Hpos & Hq) Hp. destruct st as [| | | | | | | | | | | | |q code| | | | | | | |]; try reflexivity.
+  intros (Hok & Hpos & Hq & _) Hp. destruct st as [| | | | | | | | | | | | |q code| | | | | | | |]; try reflexivity.
   destruct code; try reflexivity. cbn [not_jz_at pos_of jz_pos] in *. subst. apply negb_true_iff. apply Z.eqb_neq. lia.
 Qed.
 
-(* ---- collect_if: the statements strictly inside an if ---- *)
+(* the last statement of a list *)
+Definition lastn (l : list node) : option node := match rev l with x :: _ => Some x | [] => None end.
+Lemma lastn_app A B : lastn (A ++ B) = match lastn B with Some x => Some x | None => lastn A end.
+Proof. unfold lastn. rewrite rev_app_distr. destruct (rev B); reflexivity. Qed.
+Lemma lastn_cons x B : lastn (x :: B) = match lastn B with Some y => Some y | None => Some x end.
+Proof. change (x :: B) with ([x] ++ B). rewrite lastn_app. reflexivity. Qed.
+Lemma lastn_none l : lastn l = None -> l = [].
+Proof. unfold lastn. destruct (rev l) eqn:E; [|discriminate]. intros _. apply (f_equal (@rev node)) in E. rewrite rev_involutive in E. exact E. Qed.
+Lemma flats_nonempty l : l <> [] -> flats l <> [].
+Proof. destruct l as [|x r]; [congruence|]. intros _. cbn [flats]. destruct x; discriminate. Qed.
+
+(* a flat list never ends with an unconditional jump *)
+Definition noj_opt (o : option node) : Prop := match o with Some st => noj st = true | None => True end.
+Lemma flats_last_noj lo hi l : wp lo hi l -> noj_opt (lastn (flats l)).
+Proof.
+  induction 1 as [lo hi H | lo hi st r Hp Hlo Hr IH | lo hi p c a body r Hlo Hne Hb IHb Hr IHr
+                 | lo hi p c eb body jp je ebody r Hlo Hne Hne' Hb IHb Hj He IHe Hr IHr].
+  - exact I.
+  - cbn [flats flat_i app]. rewrite lastn_cons. destruct (lastn (flats r)); [exact IH | apply plain_noj; exact Hp].
+  - cbn [flats]. rewrite flat_if. cbn [app]. rewrite lastn_cons, lastn_app.
+    destruct (lastn (flats r)); [exact IHr|].
+    destruct (lastn (flats body)) eqn:E; [exact IHb|]. exfalso. apply (flats_nonempty body Hne). apply lastn_none. exact E.
+  - cbn [flats]. rewrite flat_ife. cbn [app]. rewrite lastn_cons, <- app_assoc, lastn_app. cbn [app]. rewrite lastn_cons, lastn_app.
+    destruct (lastn (flats r)); [exact IHr|].
+    destruct (lastn (flats ebody)) eqn:E; [exact IHe|]. exfalso. apply (flats_nonempty ebody Hne'). apply lastn_none. exact E.
+Qed.
+
+(* ---- collect_if: the statements strictly inside the then part ---- *)
 Section Collect.
   Variables (p a : Z) (c : node).
   Let op := Jz p c a.
 
-  (* statements before the jump are passed over *)
   Lemma collect_skip D X : Forall (fun st => st_ok st = true /\ pos_of st < p /\ not_jz_at p st = true) D -> p < a ->
     collect_if op p a (D ++ X) = collect_if op p a X.
   Proof.
@@ -143,11 +234,9 @@ Section Collect.
     replace (a <=? pos_of st) with false by (symmetry; apply Z.leb_gt; lia). exact IH.
   Qed.
 
-  (* the jump statement itself is skipped *)
   Lemma collect_head q X : collect_if op p a (Stmt q op :: X) = collect_if op p a X.
   Proof. cbn [collect_if code_of]. unfold op. rewrite node_eq_jz_refl. reflexivity. Qed.
 
-  (* the statements of the body are taken *)
   Lemma collect_take B X : Forall (fun st => st_ok st = true /\ p <= pos_of st < a /\ not_jz_at p st = true) B ->
     collect_if op p a (B ++ X) = B ++ collect_if op p a X.
   Proof.
@@ -158,7 +247,6 @@ Section Collect.
     replace (a <=? pos_of st) with false by (symmetry; apply Z.leb_gt; lia). cbn [app]. f_equal. exact IH.
   Qed.
 
-  (* the first statement at or after the target ends the collection *)
   Lemma collect_stop X : match X with [] => True | st :: _ => st_ok st = true /\ a <= pos_of st /\ not_jz_at p st = true end ->
     collect_if op p a X = [].
   Proof.
@@ -168,6 +256,29 @@ Section Collect.
     replace (a <=? pos_of st) with true by (symmetry; apply Z.leb_le; lia). reflexivity.
   Qed.
 End Collect.
+
+(* ---- collect_else: the statements strictly between the else jump and its target ---- *)
+Lemma collect_else_skip s en D X : Forall (fun st => pos_of st <= s) D -> s < en ->
+  collect_else s en (D ++ X) = collect_else s en X.
+Proof.
+  intros H Hs. induction H as [|st D Hpos _ IH]; [reflexivity|].
+  cbn [app collect_else]. replace (s <? pos_of st) with false by (symmetry; apply Z.ltb_ge; lia). cbn [andb app].
+  replace (en <=? pos_of st) with false by (symmetry; apply Z.leb_gt; lia). exact IH.
+Qed.
+Lemma collect_else_take s en B X : Forall (fun st => s < pos_of st < en) B ->
+  collect_else s en (B ++ X) = B ++ collect_else s en X.
+Proof.
+  intros H. induction H as [|st B Hpos _ IH]; [reflexivity|].
+  cbn [app collect_else]. replace (s <? pos_of st) with true by (symmetry; apply Z.ltb_lt; lia).
+  replace (pos_of st <? en) with true by (symmetry; apply Z.ltb_lt; lia). cbn [andb].
+  replace (en <=? pos_of st) with false by (symmetry; apply Z.leb_gt; lia). cbn [app]. f_equal. exact IH.
+Qed.
+Lemma collect_else_stop s en X : match X with [] => True | st :: _ => en <= pos_of st end -> collect_else s en X = [].
+Proof.
+  destruct X as [|st X]; [reflexivity|]. intros Hpos. cbn [collect_else].
+  replace (pos_of st <? en) with false by (symmetry; apply Z.ltb_ge; lia). rewrite andb_false_r.
+  replace (en <=? pos_of st) with true by (symmetry; apply Z.leb_le; lia). reflexivity.
+Qed.
 
 (* ---- remove_all: taking a contiguous block out of a list with distinct positions ---- *)
 Lemma remove_first_mid A x R : Forall (fun y => st_ok y = true /\ pos_of y <> pos_of x) A -> st_ok x = true ->
@@ -211,67 +322,128 @@ Proof.
   rewrite IH. destruct st; try discriminate H. destruct st; try discriminate H; reflexivity.
 Qed.
 
+(* ---- no jump of the list leaves the loop: break_detect changes nothing ---- *)
+Definition le_opt (hi : Z) (e : option Z) : Prop := match e with Some x => hi <= x | None => True end.
+Lemma lt_opt_le hi e a : le_opt hi e -> a <= hi -> lt_opt e a = false.
+Proof. destruct e as [x|]; [|reflexivity]. cbn [le_opt lt_opt]. intros. apply Z.ltb_ge. lia. Qed.
+
+Lemma break_detect_same sts e hi : le_opt hi e -> Forall (jump_le hi) sts -> break_detect sts e = sts.
+Proof.
+  intros He H. destruct e as [x|]; [|reflexivity]. cbn [break_detect le_opt] in *.
+  destruct (rev sts) as [|y [|z before]] eqn:E; try reflexivity.
+  destruct z; try reflexivity. destruct z; try reflexivity.
+  assert (Hin : In (Stmt pos (Jump pos0 addr)) sts) by (apply in_rev; rewrite E; right; left; reflexivity).
+  rewrite Forall_forall in H. specialize (H _ Hin). cbn [jump_le] in H.
+  replace (x <? addr) with false by (symmetry; apply Z.ltb_ge; lia). reflexivity.
+Qed.
+
 (* ---- the scan that picks the jumps opening an if at this level ---- *)
 Definition top_jzs (l : list item) : list node :=
-  flat_map (fun i => match i with IIf p c a _ => [Jz p c a] | IPlain _ => [] end) l.
+  flat_map (fun i => match i with IIf p c a _ => [Jz p c a] | IIfE p c eb _ _ _ _ => [Jz p c eb] | IPlain _ => [] end) l.
 
-Definition prev_ok (o : option node) : Prop := match o with Some st => st_ok st = true | None => True end.
 Definition scan_ok (lo : Z) (s : scan_state) : Prop :=
-  sc_in_else s = false /\ prev_ok (sc_prev s) /\ match sc_addr s with Some x => x <= lo | None => True end.
+  match sc_addr s with Some x => x <= lo | None => True end /\ (sc_in_else s = true \/ noj_opt (sc_prev s)).
 
-Lemma scan_step_top s st lo : scan_ok lo s -> lo <= pos_of st ->
-  scan_step None s st =
+(* the state once a pending else part is closed *)
+Definition settle (s : scan_state) : scan_state := if sc_in_else s then Build_scan_state None None false (sc_jz s) else s.
+
+Lemma settle_facts lo s : scan_ok lo s ->
+  sc_in_else (settle s) = false /\ noj_opt (sc_prev (settle s)) /\ sc_jz (settle s) = sc_jz s /\
+  match sc_addr (settle s) with Some x => x <= lo | None => True end.
+Proof.
+  intros (Ha & Hb). unfold settle. destruct (sc_in_else s) eqn:E; cbn [sc_in_else sc_prev sc_jz sc_addr].
+  - repeat split; exact I.
+  - destruct Hb as [Hb|Hb]; [discriminate|]. repeat split; assumption.
+Qed.
+
+Lemma scan_step_top e s st lo : scan_ok lo s -> lo <= pos_of st ->
+  scan_step e s st =
   match st with
-  | Stmt _ (Jz p c a) => Build_scan_state (Some a) (sc_prev s) false (sc_jz s ++ [Jz p c a])
-  | _ => s
+  | Stmt _ (Jz p c a) => Build_scan_state (if lt_opt e a then None else Some a) (sc_prev (settle s)) false (sc_jz s ++ [Jz p c a])
+  | _ => settle s
   end.
 Proof.
-  intros (Hie & Hpr & Had) Hlo. unfold scan_step.
+  intros Hs Hlo. destruct (settle_facts lo s Hs) as (Hie & Hpr & Hjz & _). destruct Hs as (Had & _). unfold scan_step.
   replace (match sc_addr s with Some a => pos_of st <? a | None => false end) with false
     by (destruct (sc_addr s); [symmetry; apply Z.ltb_ge; lia | reflexivity]).
-  rewrite Hie.
+  fold (settle s).
   assert (E : forall (A : Type) (X : Z -> A) (Y : A),
-             match sc_prev s with Some (Stmt _ (Jump _ jaddr)) => X jaddr | _ => Y end = Y).
-  { intros A X Y. destruct (sc_prev s) as [pv|]; [|reflexivity]. cbn [prev_ok] in Hpr.
-    destruct pv; try discriminate Hpr. destruct pv; try discriminate Hpr; reflexivity. }
-  rewrite E. destruct st; try reflexivity; try (destruct s; cbn in *; subst; reflexivity).
+             match sc_prev (settle s) with Some (Stmt _ (Jump _ jaddr)) => X jaddr | _ => Y end = Y).
+  { intros A X Y. destruct (sc_prev (settle s)) as [pv|]; [|reflexivity]. cbn [noj_opt] in Hpr.
+    destruct pv; try reflexivity. destruct pv; try reflexivity. discriminate Hpr. }
+  rewrite E. destruct st; try reflexivity. destruct st; try reflexivity. rewrite Hie, Hjz. reflexivity.
 Qed.
 
-Lemma scan_skip a : forall B s, sc_addr s = Some a -> Forall (fun st => st_ok st = true /\ pos_of st < a) B -> prev_ok (sc_prev s) ->
-  let s' := fold_left (scan_step None) B s in
-  sc_addr s' = Some a /\ sc_in_else s' = sc_in_else s /\ sc_jz s' = sc_jz s /\ prev_ok (sc_prev s').
+Lemma scan_skip e a : forall B s, sc_addr s = Some a -> Forall (fun st => pos_of st < a) B ->
+  fold_left (scan_step e) B s =
+  Build_scan_state (Some a) (match lastn B with Some x => Some x | None => sc_prev s end) (sc_in_else s) (sc_jz s).
 Proof.
-  induction B as [|st B IH]; intros s Ha HB Hp; [cbn; auto|].
-  inversion HB as [|? ? [Hok Hpos] HB']; subst. cbn [fold_left].
-  assert (E : scan_step None s st = Build_scan_state (sc_addr s) (Some st) (sc_in_else s) (sc_jz s)).
-  { unfold scan_step. rewrite Ha. replace (pos_of st <? a) with true by (symmetry; apply Z.ltb_lt; lia). reflexivity. }
-  rewrite E. specialize (IH (Build_scan_state (sc_addr s) (Some st) (sc_in_else s) (sc_jz s)) Ha HB' Hok).
-  cbn [sc_addr sc_in_else sc_jz sc_prev] in IH. exact IH.
+  induction B as [|st B IH]; intros s Ha HB.
+  - cbn [fold_left lastn rev]. destruct s; cbn in *; subst; reflexivity.
+  - inversion HB as [|? ? Hpos HB']; subst. cbn [fold_left].
+    assert (E : scan_step e s st = Build_scan_state (sc_addr s) (Some st) (sc_in_else s) (sc_jz s)).
+    { unfold scan_step. rewrite Ha. replace (pos_of st <? a) with true by (symmetry; apply Z.ltb_lt; lia). reflexivity. }
+    rewrite E. rewrite (IH (Build_scan_state (sc_addr s) (Some st) (sc_in_else s) (sc_jz s)) Ha HB'). cbn [sc_prev sc_in_else sc_jz]. rewrite lastn_cons. destruct (lastn B); reflexivity.
 Qed.
 
-Lemma scan_flats lo hi l : wp lo hi l -> forall s, scan_ok lo s ->
-  let s' := fold_left (scan_step None) (flats l) s in scan_ok hi s' /\ sc_jz s' = sc_jz s ++ top_jzs l.
+Lemma scan_flats e lo hi l : wp lo hi l -> le_opt hi e -> forall s, scan_ok lo s ->
+  let s' := fold_left (scan_step e) (flats l) s in scan_ok hi s' /\ sc_jz s' = sc_jz s ++ top_jzs l.
 Proof.
-  induction 1 as [lo hi H | lo hi st r Hp Hlo Hr IH | lo hi p c a body r Hlo Hne Hb IHb Hr IHr]; intros s Hs.
-  - cbn. split; [|rewrite app_nil_r; reflexivity]. destruct Hs as (H1 & H2 & H3). repeat split; try assumption.
+  induction 1 as [lo hi H | lo hi st r Hp Hlo Hr IH | lo hi p c a body r Hlo Hne Hb _ Hr IHr
+                 | lo hi p c eb body jp je ebody r Hlo Hne Hne' Hb _ Hj He _ Hr IHr]; intros Hle s Hs.
+  - cbn. split; [|rewrite app_nil_r; reflexivity]. destruct Hs as (H1 & H2). split; [|exact H2].
     destruct (sc_addr s); [lia|exact I].
-  - cbn [flats flat_i app fold_left]. rewrite (scan_step_top s st lo Hs Hlo).
-    assert (E : match st with Stmt _ (Jz p c a) => Build_scan_state (Some a) (sc_prev s) false (sc_jz s ++ [Jz p c a]) | _ => s end = s)
+  - cbn [flats flat_i app fold_left]. rewrite (scan_step_top e s st lo Hs Hlo).
+    assert (E : match st with
+                | Stmt _ (Jz p c a) => Build_scan_state (if lt_opt e a then None else Some a) (sc_prev (settle s)) false (sc_jz s ++ [Jz p c a])
+                | _ => settle s end = settle s)
       by (destruct st; try discriminate Hp; destruct st; try discriminate Hp; reflexivity).
-    rewrite E. cbn [top_jzs flat_map app]. apply IH. destruct Hs as (H1 & H2 & H3). repeat split; try assumption.
-    destruct (sc_addr s); [lia|exact I].
-  - cbn [flats]. rewrite flat_if. cbn [app fold_left]. rewrite (scan_step_top s (Stmt p (Jz p c a)) lo Hs ltac:(cbn [pos_of]; lia)).
+    rewrite E. cbn [top_jzs flat_map app]. destruct (settle_facts lo s Hs) as (K1 & K2 & K3 & K4).
+    destruct (IH Hle (settle s)) as [I1 I2].
+    + split; [destruct (sc_addr (settle s)); [lia|exact I] | right; exact K2].
+    + split; [exact I1 | rewrite I2, K3; reflexivity].
+  - pose proof (wp_le _ _ _ Hb) as Hpa. pose proof (wp_le _ _ _ Hr) as Hah.
+    cbn [flats]. rewrite flat_if. cbn [app fold_left]. rewrite (scan_step_top e s (Stmt p (Jz p c a)) lo Hs ltac:(cbn [pos_of]; lia)).
+    rewrite (lt_opt_le hi e a Hle Hah). rewrite fold_left_app.
+    destruct (settle_facts lo s Hs) as (K1 & K2 & K3 & K4).
+    set (s1 := Build_scan_state (Some a) (sc_prev (settle s)) false (sc_jz s ++ [Jz p c a])).
+    rewrite (scan_skip e a (flats body) s1 eq_refl)
+      by (eapply Forall_impl; [|exact (flats_within _ _ _ Hb)]; intros x (_ & Hx & _); lia).
+    cbn [sc_prev sc_in_else sc_jz s1].
+    destruct (lastn (flats body)) as [lb|] eqn:El; [|exfalso; apply (flats_nonempty body Hne); apply lastn_none; exact El].
+    pose proof (flats_last_noj _ _ _ Hb) as Hlb. rewrite El in Hlb. cbn [noj_opt] in Hlb.
+    destruct (IHr Hle (Build_scan_state (Some a) (Some lb) false (sc_jz s ++ [Jz p c a]))) as [I1 I2].
+    + split; [cbn [sc_addr]; lia | right; exact Hlb].
+    + split; [exact I1|]. rewrite I2. cbn [sc_jz top_jzs flat_map]. rewrite <- app_assoc. reflexivity.
+  - pose proof (wp_le _ _ _ Hb) as Hpj. pose proof (wp_le _ _ _ He) as Hee. pose proof (wp_le _ _ _ Hr) as Hjh.
+    cbn [flats]. rewrite flat_ife. cbn [app fold_left]. rewrite (scan_step_top e s (Stmt p (Jz p c eb)) lo Hs ltac:(cbn [pos_of]; lia)).
+    rewrite (lt_opt_le hi e eb Hle ltac:(lia)).
+    destruct (settle_facts lo s Hs) as (K1 & K2 & K3 & K4).
+    (* then part and the else jump are passed over; the jump is remembered *)
+    replace ((flats body ++ Stmt jp (Jump jp je) :: flats ebody) ++ flats r)
+      with ((flats body ++ [Stmt jp (Jump jp je)]) ++ flats ebody ++ flats r) by (rewrite <- !app_assoc; reflexivity).
     rewrite fold_left_app.
-    set (s1 := Build_scan_state (Some a) (sc_prev s) false (sc_jz s ++ [Jz p c a])).
-    destruct Hs as (H1 & H2 & H3).
-    pose proof (scan_skip a (flats body) s1 eq_refl) as Hsk.
-    assert (HB : Forall (fun st => st_ok st = true /\ pos_of st < a) (flats body)).
-    { eapply Forall_impl; [|exact (flats_within _ _ _ Hb)]. intros x (Hx1 & Hx2 & _). split; [exact Hx1 | lia]. }
-    specialize (Hsk HB H2). cbn zeta in Hsk. destruct Hsk as (Ka & Ke & Kj & Kp).
-    set (s2 := fold_left (scan_step None) (flats body) s1) in *.
-    assert (Hs2 : scan_ok a s2) by (repeat split; [rewrite Ke; reflexivity | exact Kp | rewrite Ka; lia]).
-    destruct (IHr s2 Hs2) as [K1 K2]. split; [exact K1|].
-    rewrite K2, Kj. cbn [top_jzs flat_map sc_jz s1]. rewrite <- app_assoc. reflexivity.
+    set (s1 := Build_scan_state (Some eb) (sc_prev (settle s)) false (sc_jz s ++ [Jz p c eb])).
+    rewrite (scan_skip e eb (flats body ++ [Stmt jp (Jump jp je)]) s1 eq_refl).
+    2:{ apply Forall_app. split.
+        - eapply Forall_impl; [|exact (flats_within _ _ _ Hb)]. intros x (_ & Hx & _). lia.
+        - constructor; [cbn [pos_of]; lia | constructor]. }
+    rewrite lastn_app. cbn [lastn rev app sc_in_else sc_jz s1].
+    (* the first statement of the else part switches to else mode *)
+    destruct (flats ebody) as [|e1 erest] eqn:Ee; [exfalso; apply (flats_nonempty ebody Hne'); exact Ee|].
+    pose proof (flats_within _ _ _ He) as HE. rewrite Ee in HE. inversion HE as [|? ? He1 HErest]; subst.
+    cbn [app fold_left].
+    set (s2 := Build_scan_state (Some eb) (Some (Stmt jp (Jump jp je))) false (sc_jz s ++ [Jz p c eb])).
+    assert (E2 : scan_step e s2 e1 = Build_scan_state (Some je) (Some (Stmt jp (Jump jp je))) true (sc_jz s ++ [Jz p c eb])).
+    { unfold scan_step. cbn [sc_addr sc_in_else sc_prev sc_jz s2]. destruct He1 as (_ & Hx & _).
+      replace (pos_of e1 <? eb) with false by (symmetry; apply Z.ltb_ge; lia). reflexivity. }
+    rewrite E2. rewrite fold_left_app.
+    rewrite (scan_skip e je erest (Build_scan_state (Some je) (Some (Stmt jp (Jump jp je))) true (sc_jz s ++ [Jz p c eb])) eq_refl)
+      by (eapply Forall_impl; [|exact HErest]; intros x (_ & Hx & _); lia).
+    cbn [sc_prev sc_in_else sc_jz].
+    match goal with |- context [fold_left (scan_step e) (flats r) ?st] => destruct (IHr Hle st) as [I1 I2] end.
+    + split; [cbn [sc_addr]; lia | left; reflexivity].
+    + split; [exact I1|]. rewrite I2. cbn [sc_jz top_jzs flat_map]. rewrite <- app_assoc. reflexivity.
 Qed.
 
 (* ---- condition_detect, one level ---- *)
@@ -312,24 +484,34 @@ Lemma condition_detect_unfold f sts e :
 Proof. reflexivity. Qed.
 
 Lemma last_case {A} (l : list node) (X : A) (Y : Z -> Z -> list node -> A) (W : A) :
-  l <> [] -> Forall (fun st => st_ok st = true) l ->
+  l <> [] -> Forall (fun st => noj st = true) l ->
   match rev l with [] => X | Stmt _ (Jump jp ja) :: before => Y jp ja before | _ => W end = W.
 Proof.
   intros Hne H. destruct (rev l) as [|x r] eqn:E.
   - exfalso. apply Hne. apply (f_equal (@rev node)) in E. rewrite rev_involutive in E. exact E.
-  - assert (Hx : st_ok x = true).
+  - assert (Hx : noj x = true).
     { rewrite Forall_forall in H. apply H. apply in_rev. rewrite E. left. reflexivity. }
-    destruct x; try discriminate Hx. destruct x; try discriminate Hx; reflexivity.
+    destruct x; try reflexivity. destruct x; try reflexivity. discriminate Hx.
 Qed.
 
 Lemma trees_nonempty l : l <> [] -> trees l <> [].
 Proof. destruct l; [congruence|discriminate]. Qed.
+Lemma trees_noj lo hi l : wp lo hi l -> Forall (fun st => noj st = true) (trees l).
+Proof.
+  induction 1; cbn [trees]; constructor; try assumption; try reflexivity. cbn [tree_i]. apply plain_noj. assumption.
+Qed.
 
-Lemma depths_cons x r : depths (x :: r) = Nat.max (depth_i x) (depths r). Proof. reflexivity. Qed.
+(* inert trailing statements (the else jump that ends a then part) *)
+Definition inert (st : node) : bool := match st with Stmt _ (Jump _ _) => true | _ => false end.
+Definition tail_ok (hi : Z) (tail : list node) : Prop := Forall (fun st => inert st = true /\ hi <= pos_of st) tail.
+Lemma inert_ok st p : inert st = true -> st_ok st = true /\ not_jz_at p st = true.
+Proof. destruct st; try discriminate. destruct st; try discriminate. split; reflexivity. Qed.
 
 Section Level.
   Variable f : nat.
-  Hypothesis IHf : forall l lo hi, wp lo hi l -> (depths l < f)%nat -> condition_detect f (flats l) None = Ok (trees l).
+  Variable e : option Z.
+  Hypothesis IHf : forall l lo hi tail, wp lo hi l -> le_opt hi e -> tail_ok hi tail -> (depths l < f)%nat ->
+    condition_detect f (flats l ++ tail) e = Ok (trees l ++ tail).
 
   Definition before_ok (lo : Z) (st : node) : Prop := st_ok st = true /\ pos_of st < lo /\ jz_pos st.
 
@@ -339,76 +521,184 @@ Section Level.
     destruct code; try reflexivity. cbn [not_jz_at pos_of jz_pos] in *. subst. apply negb_true_iff. apply Z.eqb_neq. lia.
   Qed.
 
-  Lemma fold_ifs : forall todo lo hi, wp lo hi todo -> (depths todo < S f)%nat ->
-    forall D, Forall (before_ok lo) D ->
-    fold_left (cd_step f None) (top_jzs todo) (Ok (D ++ flats todo)) = Ok (D ++ trees todo).
+  (* the statements after a construct: the rest of the level and the inert tail *)
+  Lemma rest_ok a hi p r tail : Forall (within a hi) (flats r) -> tail_ok hi tail -> a <= hi -> p < a ->
+    Forall (fun st => st_ok st = true /\ not_jz_at p st = true) (flats r ++ tail) /\
+    match flats r ++ tail with [] => True | st :: _ => st_ok st = true /\ a <= pos_of st /\ not_jz_at p st = true end.
   Proof.
-    induction 1 as [lo hi H | lo hi st r Hp Hlo Hr IH | lo hi p c a body r Hlo Hne Hb _ Hr IHr]; intros Hd D HD.
+    intros HR HT Hah Hpa. split.
+    - apply Forall_app. split.
+      + eapply Forall_impl; [|exact HR]. intros x Hx. split; [apply Hx | apply (within_not_jz a hi p x Hx); left; lia].
+      + eapply Forall_impl; [|exact HT]. intros x [Hx _]. apply (inert_ok x p Hx).
+    - destruct (flats r) as [|x xs].
+      + cbn [app]. destruct tail as [|t ts]; [exact I|]. inversion HT as [|? ? [Ht1 Ht2] _]; subst.
+        destruct (inert_ok t p Ht1) as [K1 K2]. repeat split; [exact K1 | lia | exact K2].
+      + inversion HR as [|? ? Hx _]; subst. cbn [app]. pose proof Hx as (Hx1 & Hx2 & _).
+        repeat split; [exact Hx1 | lia | apply (within_not_jz a hi p x Hx); left; lia].
+  Qed.
+
+  Lemma fold_ifs : forall todo lo hi, wp lo hi todo -> le_opt hi e -> (depths todo < S f)%nat ->
+    forall D tail, Forall (before_ok lo) D -> tail_ok hi tail ->
+    fold_left (cd_step f e) (top_jzs todo) (Ok (D ++ flats todo ++ tail)) = Ok (D ++ trees todo ++ tail).
+  Proof.
+    induction 1 as [lo hi H | lo hi st r Hp Hlo Hr IH | lo hi p c a body r Hlo Hne Hb _ Hr IHr
+                   | lo hi p c eb body jp je ebody r Hlo Hne Hne' Hb _ Hj He _ Hr IHr]; intros Hle Hd D tail HD HT.
     - reflexivity.
     - cbn [top_jzs flat_map app flats flat_i trees tree_i].
-      change (D ++ st :: flats r) with (D ++ [st] ++ flats r). change (D ++ st :: trees r) with (D ++ [st] ++ trees r).
-      rewrite !app_assoc. apply IH.
-      + rewrite depths_cons in Hd. lia.
-      + apply Forall_app. split.
-        * eapply Forall_impl; [|exact HD]. intros x (H1 & H2 & H3). repeat split; try assumption. lia.
-        * constructor; [|constructor]. repeat split; [apply plain_st_ok; exact Hp | lia | apply plain_jz_pos; exact Hp].
-    - pose proof (wp_le _ _ _ Hb) as Hpa. pose proof (wp_le _ _ _ Hr) as Hah.
+      change (D ++ st :: flats r ++ tail) with (D ++ [st] ++ flats r ++ tail).
+      change (D ++ st :: trees r ++ tail) with (D ++ [st] ++ trees r ++ tail).
+      rewrite !(app_assoc D [st]). apply IH; [exact Hle | rewrite depths_cons in Hd; lia | | exact HT].
+      apply Forall_app. split.
+      + eapply Forall_impl; [|exact HD]. intros x (H1 & H2 & H3). repeat split; try assumption. lia.
+      + constructor; [|constructor]. repeat split; [apply plain_st_ok; exact Hp | lia | apply plain_jz_pos; exact Hp].
+    - (* if *)
+      pose proof (wp_le _ _ _ Hb) as Hpa. pose proof (wp_le _ _ _ Hr) as Hah.
       rewrite depths_cons, depth_if in Hd.
-      change (top_jzs (IIf p c a body :: r)) with (Jz p c a :: top_jzs r). cbn [fold_left flats trees]. rewrite flat_if, tree_if.
+      change (top_jzs (IIf p c a body :: r)) with (Jz p c a :: top_jzs r). cbn [fold_left flats trees]. rewrite flat_if, tree_if. rewrite <- app_assoc.
       pose proof (flats_within _ _ _ Hb) as HB. pose proof (flats_within _ _ _ Hr) as HR.
-      (* one step *)
-      assert (Estep : cd_step f None (Ok (D ++ (Stmt p (Jz p c a) :: flats body) ++ flats r)) (Jz p c a)
-                      = Ok ((D ++ [Stmt p (IfThen p c (trees body) [])]) ++ flats r)).
-      { unfold cd_step. cbn [bind lt_opt]. cbn [app]. 
-        (* the statements of the then-part *)
-        assert (Ecol : collect_if (Jz p c a) p a (D ++ Stmt p (Jz p c a) :: flats body ++ flats r) = flats body).
+      destruct (rest_ok a hi p r tail HR HT Hah ltac:(lia)) as [HRall HRhead].
+      assert (HDnj : Forall (fun st => st_ok st = true /\ not_jz_at p st = true) D)
+        by (eapply Forall_impl; [|exact HD]; intros x Hx; split; [apply Hx | apply (before_not_jz lo p x Hx Hlo)]).
+      assert (Estep : cd_step f e (Ok (D ++ (Stmt p (Jz p c a) :: flats body) ++ flats r ++ tail)) (Jz p c a)
+                      = Ok ((D ++ [Stmt p (IfThen p c (trees body) [])]) ++ flats r ++ tail)).
+      { unfold cd_step. cbn [bind]. rewrite (lt_opt_le hi e a Hle Hah). cbn [app].
+        assert (Ecol : collect_if (Jz p c a) p a (D ++ Stmt p (Jz p c a) :: flats body ++ flats r ++ tail) = flats body).
         { rewrite collect_skip; [| |lia].
           - rewrite collect_head, collect_take.
-            + rewrite collect_stop; [apply app_nil_r|].
-              destruct (flats r) as [|x xs]; [exact I|]. inversion HR as [|? ? Hx _]; subst.
-              destruct Hx as (Hx1 & Hx2 & Hx3). repeat split; [exact Hx1 | lia |].
-              apply (within_not_jz a hi p x); [exact (conj Hx1 (conj Hx2 Hx3)) | left; lia].
-            + eapply Forall_impl; [|exact HB]. intros x Hx. pose proof Hx as (Hx1 & Hx2 & Hx3). repeat split; [exact Hx1 | lia | lia |].
+            + rewrite collect_stop; [apply app_nil_r | exact HRhead].
+            + eapply Forall_impl; [|exact HB]. intros x Hx. pose proof Hx as (Hx1 & Hx2 & _). repeat split; [exact Hx1 | lia | lia |].
               apply (within_not_jz (p + 1) a p x Hx). left. lia.
           - eapply Forall_impl; [|exact HD]. intros x Hx. pose proof Hx as (Hx1 & Hx2 & Hx3). repeat split; [exact Hx1 | lia |].
             apply (before_not_jz lo p x Hx Hlo). }
         rewrite Ecol.
-        (* taking them out *)
-        assert (Erem : remove_all (flats body) (D ++ Stmt p (Jz p c a) :: flats body ++ flats r)
-                       = Ok ((D ++ [Stmt p (Jz p c a)]) ++ flats r)).
-        { change (D ++ Stmt p (Jz p c a) :: flats body ++ flats r) with (D ++ [Stmt p (Jz p c a)] ++ flats body ++ flats r).
+        assert (Erem : remove_all (flats body) (D ++ Stmt p (Jz p c a) :: flats body ++ flats r ++ tail)
+                       = Ok ((D ++ [Stmt p (Jz p c a)]) ++ flats r ++ tail)).
+        { change (D ++ Stmt p (Jz p c a) :: flats body ++ flats r ++ tail) with (D ++ [Stmt p (Jz p c a)] ++ flats body ++ flats r ++ tail).
           rewrite app_assoc. apply (remove_all_block _ _ _ (p + 1)).
           - apply Forall_app. split.
             + eapply Forall_impl; [|exact HD]. intros x (Hx1 & Hx2 & _). split; [exact Hx1 | lia].
             + constructor; [|constructor]. split; [reflexivity | cbn [pos_of]; lia].
           - eapply Forall_impl; [|exact HB]. intros x (Hx1 & Hx2 & _). split; [exact Hx1 | lia]. }
-        rewrite Erem. cbn [bind break_detect].
-        rewrite (IHf body (p + 1) a Hb) by lia. cbn [bind].
-        rewrite last_case; [| apply trees_nonempty; exact Hne |].
-        - rewrite <- app_assoc. cbn [app]. rewrite replace_code_all_one.
-          + rewrite <- app_assoc. reflexivity.
-          + eapply Forall_impl; [|exact HD]. intros x Hx. split; [apply Hx | apply (before_not_jz lo p x Hx Hlo)].
-          + eapply Forall_impl; [|exact HR]. intros x Hx. split; [apply Hx | apply (within_not_jz a hi p x Hx); left; lia].
-        - eapply Forall_impl; [|exact (trees_within _ _ _ Hb)]. intros x Hx. apply Hx. }
-      rewrite Estep. rewrite IHr.
-      + rewrite <- app_assoc. reflexivity.
-      + lia.
-      + apply Forall_app. split.
-        * eapply Forall_impl; [|exact HD]. intros x (H1 & H2 & H3). repeat split; try assumption. lia.
-        * constructor; [|constructor]. repeat split; cbn [pos_of]; lia.
+        rewrite Erem. cbn [bind].
+        rewrite (break_detect_same (flats body) e hi Hle)
+          by (eapply Forall_impl; [|exact HB]; intros x Hx; apply (within_weaken _ _ lo hi x Hx); lia).
+        pose proof (IHf body (p + 1) a [] Hb ltac:(destruct e; cbn [le_opt] in *; lia) (Forall_nil _) ltac:(lia)) as Eb.
+        rewrite !app_nil_r in Eb. rewrite Eb. cbn [bind].
+        rewrite last_case; [| apply trees_nonempty; exact Hne | exact (trees_noj _ _ _ Hb)].
+        rewrite <- app_assoc. cbn [app]. rewrite replace_code_all_one; [| exact HDnj | exact HRall].
+        rewrite <- app_assoc. reflexivity. }
+      rewrite Estep. rewrite IHr; [rewrite <- app_assoc; reflexivity | exact Hle | lia | | exact HT].
+      apply Forall_app. split.
+      + eapply Forall_impl; [|exact HD]. intros x (H1 & H2 & H3). repeat split; try assumption. lia.
+      + constructor; [|constructor]. repeat split; cbn [pos_of]; lia.
+    - (* if-else *)
+      pose proof (wp_le _ _ _ Hb) as Hpj. pose proof (wp_le _ _ _ He) as Hee. pose proof (wp_le _ _ _ Hr) as Hjh.
+      rewrite depths_cons, depth_ife in Hd.
+      change (top_jzs (IIfE p c eb body jp je ebody :: r)) with (Jz p c eb :: top_jzs r). cbn [fold_left flats trees]. rewrite flat_ife, tree_ife. rewrite <- app_assoc.
+      pose proof (flats_within _ _ _ Hb) as HB. pose proof (flats_within _ _ _ He) as HE. pose proof (flats_within _ _ _ Hr) as HR.
+      destruct (rest_ok je hi p r tail HR HT Hjh ltac:(lia)) as [HRall HRhead].
+      set (J := Stmt jp (Jump jp je)).
+      assert (HDnj : Forall (fun st => st_ok st = true /\ not_jz_at p st = true) D)
+        by (eapply Forall_impl; [|exact HD]; intros x Hx; split; [apply Hx | apply (before_not_jz lo p x Hx Hlo)]).
+      assert (HEnj : Forall (fun st => st_ok st = true /\ not_jz_at p st = true) (flats ebody))
+        by (eapply Forall_impl; [|exact HE]; intros x Hx; split; [apply Hx | apply (within_not_jz eb je p x Hx); left; lia]).
+      assert (Hle_e : forall x, x <= hi -> le_opt x e) by (intros x Hx; destruct e; cbn [le_opt] in *; lia).
+      assert (Estep : cd_step f e (Ok (D ++ (Stmt p (Jz p c eb) :: flats body ++ J :: flats ebody) ++ flats r ++ tail)) (Jz p c eb)
+                      = Ok ((D ++ [Stmt p (IfThen p c (trees body) (trees ebody))]) ++ flats r ++ tail)).
+      { unfold cd_step. cbn [bind]. rewrite (lt_opt_le hi e eb Hle ltac:(lia)). cbn [app].
+        replace ((flats body ++ J :: flats ebody) ++ flats r ++ tail)
+          with ((flats body ++ [J]) ++ flats ebody ++ flats r ++ tail) by (rewrite <- !app_assoc; reflexivity).
+        (* the then part with its closing jump *)
+        assert (HBJ : Forall (fun st => st_ok st = true /\ p <= pos_of st < eb /\ not_jz_at p st = true) (flats body ++ [J])).
+        { apply Forall_app. split.
+          - eapply Forall_impl; [|exact HB]. intros x Hx. pose proof Hx as (Hx1 & Hx2 & _). repeat split; [exact Hx1 | lia | lia |].
+            apply (within_not_jz (p + 1) jp p x Hx). left. lia.
+          - constructor; [|constructor]. repeat split; cbn [pos_of J]; lia. }
+        assert (Ecol : collect_if (Jz p c eb) p eb (D ++ Stmt p (Jz p c eb) :: (flats body ++ [J]) ++ flats ebody ++ flats r ++ tail)
+                       = flats body ++ [J]).
+        { rewrite collect_skip; [| |lia].
+          - rewrite collect_head, collect_take by exact HBJ.
+            rewrite collect_stop; [apply app_nil_r|].
+            destruct (flats ebody) as [|x xs] eqn:Ee; [exfalso; apply (flats_nonempty ebody Hne'); exact Ee|].
+            inversion HE as [|? ? Hx _]; subst. cbn [app]. pose proof Hx as (Hx1 & Hx2 & _).
+            repeat split; [exact Hx1 | lia | apply (within_not_jz eb je p x Hx); left; lia].
+          - eapply Forall_impl; [|exact HD]. intros x Hx. pose proof Hx as (Hx1 & Hx2 & Hx3). repeat split; [exact Hx1 | lia |].
+            apply (before_not_jz lo p x Hx Hlo). }
+        rewrite Ecol.
+        assert (Erem : remove_all (flats body ++ [J]) (D ++ Stmt p (Jz p c eb) :: (flats body ++ [J]) ++ flats ebody ++ flats r ++ tail)
+                       = Ok ((D ++ [Stmt p (Jz p c eb)]) ++ flats ebody ++ flats r ++ tail)).
+        { change (D ++ Stmt p (Jz p c eb) :: (flats body ++ [J]) ++ flats ebody ++ flats r ++ tail)
+            with (D ++ [Stmt p (Jz p c eb)] ++ (flats body ++ [J]) ++ flats ebody ++ flats r ++ tail).
+          rewrite app_assoc. apply (remove_all_block _ _ _ (p + 1)).
+          - apply Forall_app. split.
+            + eapply Forall_impl; [|exact HD]. intros x (Hx1 & Hx2 & _). split; [exact Hx1 | lia].
+            + constructor; [|constructor]. split; [reflexivity | cbn [pos_of]; lia].
+          - apply Forall_app. split.
+            + eapply Forall_impl; [|exact HB]. intros x (Hx1 & Hx2 & _). split; [exact Hx1 | lia].
+            + constructor; [|constructor]. split; [reflexivity | cbn [pos_of J]; lia]. }
+        rewrite Erem. cbn [bind].
+        rewrite (break_detect_same (flats body ++ [J]) e hi Hle).
+        2:{ apply Forall_app. split.
+            - eapply Forall_impl; [|exact HB]. intros x Hx. apply (within_weaken _ _ lo hi x Hx); lia.
+            - constructor; [cbn [jump_le J]; lia | constructor]. }
+        assert (HTJ : tail_ok jp [J]) by (apply Forall_cons; [split; [reflexivity | cbn [pos_of J]; lia] | apply Forall_nil]).
+        rewrite (IHf body (p + 1) jp [J] Hb (Hle_e jp ltac:(lia)) HTJ ltac:(lia)).
+        cbn [bind]. rewrite rev_app_distr. cbn [rev app J].
+        rewrite (lt_opt_le hi e je Hle Hjh).
+        (* the else part *)
+        assert (Eelse : collect_else jp je ((D ++ [Stmt p (Jz p c eb)]) ++ flats ebody ++ flats r ++ tail) = flats ebody).
+        { rewrite collect_else_skip; [| |lia].
+          - rewrite collect_else_take by (eapply Forall_impl; [|exact HE]; intros x (_ & Hx & _); lia).
+            rewrite collect_else_stop; [apply app_nil_r|].
+            destruct (flats r ++ tail) as [|x xs]; [exact I|]. destruct HRhead as (_ & Hx & _). exact Hx.
+          - apply Forall_app. split.
+            + eapply Forall_impl; [|exact HD]. intros x (_ & Hx & _). lia.
+            + constructor; [cbn [pos_of]; lia | constructor]. }
+        rewrite Eelse.
+        assert (Erem2 : remove_all (flats ebody) ((D ++ [Stmt p (Jz p c eb)]) ++ flats ebody ++ flats r ++ tail)
+                        = Ok ((D ++ [Stmt p (Jz p c eb)]) ++ flats r ++ tail)).
+        { apply (remove_all_block _ _ _ eb).
+          - apply Forall_app. split.
+            + eapply Forall_impl; [|exact HD]. intros x (Hx1 & Hx2 & _). split; [exact Hx1 | lia].
+            + constructor; [|constructor]. split; [reflexivity | cbn [pos_of]; lia].
+          - eapply Forall_impl; [|exact HE]. intros x (Hx1 & Hx2 & _). split; [exact Hx1 | lia]. }
+        rewrite Erem2. cbn [bind].
+        rewrite (break_detect_same (flats ebody) e hi Hle)
+          by (eapply Forall_impl; [|exact HE]; intros x Hx; apply (within_weaken _ _ lo hi x Hx); lia).
+        pose proof (IHf ebody eb je [] He (Hle_e je Hjh) (Forall_nil _) ltac:(lia)) as Eb.
+        rewrite !app_nil_r in Eb. rewrite Eb. cbn [bind]. rewrite rev_involutive.
+        rewrite <- app_assoc. cbn [app]. rewrite replace_code_all_one; [| exact HDnj | exact HRall].
+        rewrite <- app_assoc. reflexivity. }
+      rewrite Estep. rewrite IHr; [rewrite <- app_assoc; reflexivity | exact Hle | lia | | exact HT].
+      apply Forall_app. split.
+      + eapply Forall_impl; [|exact HD]. intros x (H1 & H2 & H3). repeat split; try assumption. lia.
+      + constructor; [|constructor]. repeat split; cbn [pos_of]; lia.
   Qed.
 End Level.
 
-Theorem condition_detect_nest : forall f l lo hi, wp lo hi l -> (depths l < f)%nat ->
-  condition_detect f (flats l) None = Ok (trees l).
+Theorem condition_detect_nest : forall f e l lo hi tail, wp lo hi l -> le_opt hi e -> tail_ok hi tail -> (depths l < f)%nat ->
+  condition_detect f (flats l ++ tail) e = Ok (trees l ++ tail).
 Proof.
-  induction f as [|f IHf]; intros l lo hi Hwp Hd; [lia|].
+  induction f as [|f IHf]; intros e l lo hi tail Hwp Hle HT Hd; [lia|].
   rewrite condition_detect_unfold.
-  rewrite map_result_ok by (eapply Forall_impl; [|exact (flats_within _ _ _ Hwp)]; intros x Hx; apply Hx).
-  cbn [bind]. unfold scan_jz.
-  destruct (scan_flats lo hi l Hwp (Build_scan_state None None false []) ltac:(repeat split)) as [_ Ej].
-  rewrite Ej. cbn [sc_jz app].
-  exact (fold_ifs f IHf l lo hi Hwp Hd [] (Forall_nil _)).
+  rewrite map_result_ok.
+  2:{ apply Forall_app. split.
+      - eapply Forall_impl; [|exact (flats_within _ _ _ Hwp)]. intros x Hx. apply Hx.
+      - eapply Forall_impl; [|exact HT]. intros x [Hx _]. apply (inert_ok x 0 Hx). }
+  cbn [bind]. unfold scan_jz. rewrite fold_left_app.
+  destruct (scan_flats e lo hi l Hwp Hle (Build_scan_state None None false []) ltac:(split; [exact I | right; exact I])) as [Hok Ej].
+  set (s1 := fold_left (scan_step e) (flats l) (Build_scan_state None None false [])) in *.
+  (* the inert tail adds no jump *)
+  assert (Et : forall t lo' s, tail_ok lo' t -> scan_ok lo' s -> sc_jz (fold_left (scan_step e) t s) = sc_jz s).
+  { induction t as [|x t IHt]; intros lo' s Ht Hs; [reflexivity|]. inversion Ht as [|? ? [Hx1 Hx2] Ht']; subst.
+    cbn [fold_left]. rewrite (scan_step_top e s x lo' Hs Hx2).
+    assert (Ex : match x with
+                 | Stmt _ (Jz p c a) => Build_scan_state (if lt_opt e a then None else Some a) (sc_prev (settle s)) false (sc_jz s ++ [Jz p c a])
+                 | _ => settle s end = settle s) by (destruct x; try discriminate Hx1; destruct x; try discriminate Hx1; reflexivity).
+    rewrite Ex. destruct (settle_facts lo' s Hs) as (K1 & K2 & K3 & K4).
+    rewrite (IHt lo' (settle s) Ht'); [exact K3|]. split; [exact K4 | right; exact K2]. }
+  rewrite (Et tail hi s1 HT Hok), Ej. cbn [sc_jz app].
+  exact (fold_ifs f e (fun l lo hi tail => IHf e l lo hi tail) l lo hi Hwp Hle Hd [] tail (Forall_nil _) HT).
 Qed.
 
 (* ---- loop_detect leaves the rebuilt trees alone (there is no loop in them) ---- *)
@@ -459,7 +749,8 @@ Proof.
   assert (E : forall todo lo hi, wp lo hi todo -> (depths todo < S f)%nat -> forall out prev,
              exists prev', fold_left (ld_step (S f)) (trees todo) (Ok (out, prev, [])) = Ok (out ++ trees todo, prev', [])).
   { clear l lo hi Hwp Hd.
-    induction 1 as [lo hi H | lo hi st r Hp Hlo Hr IH | lo hi p c a body r Hlo Hne Hb _ Hr IHr]; intros Hd out prev.
+    induction 1 as [lo hi H | lo hi st r Hp Hlo Hr IH | lo hi p c a body r Hlo Hne Hb _ Hr IHr
+                   | lo hi p c eb body jp je ebody r Hlo Hne Hne' Hb _ Hj He _ Hr IHr]; intros Hd out prev.
     - exists prev. rewrite app_nil_r. reflexivity.
     - cbn [trees tree_i fold_left]. rewrite depths_cons in Hd.
       assert (Es : ld_step (S f) (Ok (out, prev, [])) st = Ok (out ++ [st], Some st, []))
@@ -470,45 +761,40 @@ Proof.
                    = Ok (out ++ [Stmt p (IfThen p c (trees body) [])], Some (Stmt p (IfThen p c (trees body) [])), [])).
       { cbn [ld_step bind]. rewrite (IHf body (p + 1) a Hb) by lia. cbn [bind]. rewrite loop_detect_nil. reflexivity. }
       rewrite Es. destruct (IHr ltac:(lia) (out ++ [Stmt p (IfThen p c (trees body) [])]) (Some (Stmt p (IfThen p c (trees body) [])))) as [p' E'].
+      exists p'. rewrite E', <- app_assoc. reflexivity.
+    - cbn [trees fold_left]. rewrite tree_ife. rewrite depths_cons, depth_ife in Hd.
+      assert (Es : ld_step (S f) (Ok (out, prev, [])) (Stmt p (IfThen p c (trees body) (trees ebody)))
+                   = Ok (out ++ [Stmt p (IfThen p c (trees body) (trees ebody))], Some (Stmt p (IfThen p c (trees body) (trees ebody))), [])).
+      { cbn [ld_step bind]. rewrite (IHf body (p + 1) jp Hb) by lia. cbn [bind]. rewrite (IHf ebody eb je He) by lia. reflexivity. }
+      rewrite Es. destruct (IHr ltac:(lia) (out ++ [Stmt p (IfThen p c (trees body) (trees ebody))]) (Some (Stmt p (IfThen p c (trees body) (trees ebody))))) as [p' E'].
       exists p'. rewrite E', <- app_assoc. reflexivity. }
   destruct (E l lo hi Hwp Hd [] None) as [p' E']. rewrite E'. reflexivity.
 Qed.
 
 (* ---- the two passes together, with the fuel parse_opcodes gives them ---- *)
+Lemma count_split (l1 : list node) (k : nat) :
+  fold_right (fun x acc => (stmt_count x + acc)%nat) k l1 = (fold_right (fun x acc => (stmt_count x + acc)%nat) O l1 + k)%nat.
+Proof. induction l1; cbn [fold_right]; [reflexivity | rewrite IHl1; lia]. Qed.
+
 Lemma depth_le_count : forall l lo hi, wp lo hi l -> (depths l <= stmts_count (flats l))%nat /\ (depths l <= stmts_count (trees l))%nat.
 Proof.
-  induction 1 as [lo hi H | lo hi st r Hp Hlo Hr IH | lo hi p c a body r Hlo Hne Hb IHb Hr IHr].
+  induction 1 as [lo hi H | lo hi st r Hp Hlo Hr IH | lo hi p c a body r Hlo Hne Hb IHb Hr IHr
+                 | lo hi p c eb body jp je ebody r Hlo Hne Hne' Hb IHb Hj He IHe Hr IHr].
   - split; reflexivity.
   - destruct IH as [I1 I2]. unfold stmts_count in *. cbn [flats flat_i trees tree_i app depths depth_i fold_right]. rewrite Nat.max_0_l. split; lia.
   - destruct IHb as [B1 B2]. destruct IHr as [R1 R2]. rewrite depths_cons, depth_if. cbn [flats trees]. rewrite flat_if, tree_if.
     unfold stmts_count in *. cbn [app fold_right stmt_count]. rewrite fold_right_app.
-    assert (Hmono : forall (l1 : list node) (k : nat), (k <= fold_right (fun x acc => stmt_count x + acc) k l1)%nat)
-      by (induction l1; intros; cbn [fold_right]; [lia | specialize (IHl1 k); lia]).
-    assert (Hsplit : forall (l1 : list node) (k : nat), fold_right (fun x acc => (stmt_count x + acc)%nat) k l1 = (fold_right (fun x acc => (stmt_count x + acc)%nat) O l1 + k)%nat)
-      by (induction l1; intros; cbn [fold_right]; [reflexivity | rewrite IHl1; lia]).
-    rewrite (Hsplit (flats body)). split; lia.
+    rewrite (count_split (flats body)). split; lia.
+  - destruct IHb as [B1 B2]. destruct IHe as [E1 E2]. destruct IHr as [R1 R2]. rewrite depths_cons, depth_ife. cbn [flats trees]. rewrite flat_ife, tree_ife.
+    unfold stmts_count in *. cbn [app fold_right stmt_count]. rewrite !fold_right_app. cbn [fold_right stmt_count].
+    rewrite (count_split (flats body)), (count_split (flats ebody)). split; lia.
 Qed.
 
 Theorem detect_nest l lo hi : wp lo hi l -> detect (flats l) = Ok (trees l).
 Proof.
   intros Hwp. unfold detect. destruct (depth_le_count l lo hi Hwp) as [H1 H2].
-  rewrite (condition_detect_nest _ l lo hi Hwp) by lia. cbn [bind].
+  pose proof (condition_detect_nest (S (S (stmts_count (flats l)))) None l lo hi [] Hwp I (Forall_nil _) ltac:(lia)) as E.
+  rewrite !app_nil_r in E. rewrite E. cbn [bind].
   apply (loop_detect_nest _ l lo hi Hwp). lia.
 Qed.
 Print Assumptions detect_nest.
-
-(* ---- composing well-positioned lists ---- *)
-Lemma wp_lower lo lo' hi l : wp lo hi l -> lo' <= lo -> wp lo' hi l.
-Proof.
-  intros H Hl. destruct H as [lo hi H | lo hi st r Hp Hlo Hr | lo hi p c a body r Hlo Hne Hb Hr].
-  - constructor. lia.
-  - constructor; [exact Hp | lia | exact Hr].
-  - constructor; [lia | exact Hne | exact Hb | exact Hr].
-Qed.
-Lemma wp_app lo mid hi l1 l2 : wp lo mid l1 -> wp mid hi l2 -> wp lo hi (l1 ++ l2).
-Proof.
-  induction 1 as [lo mid H | lo mid st r Hp Hlo Hr IH | lo mid p c a body r Hlo Hne Hb _ Hr IHr]; intros H2.
-  - cbn [app]. apply (wp_lower mid lo hi l2 H2 H).
-  - cbn [app]. constructor; [exact Hp | exact Hlo | apply IH; exact H2].
-  - cbn [app]. constructor; [exact Hlo | exact Hne | exact Hb | apply IHr; exact H2].
-Qed.
